@@ -39,10 +39,29 @@ CellDevs(n, j, k) ==
   \cup (IF n \in Svc /\ j = 9 THEN {"D_svcb_value_escape"} ELSE {})
   \cup (IF n \in Svc /\ j = 15 THEN {"D_svcb_key_charset"} ELSE {})
 
+\* routes (aliases, see MC_Presentation): how the record and its data are built
+\* and which data type is written; every variant meets every data route
+MkRoutes == <<"new", "tuple_u32", "tuple_ttl", "in_default", "header", "parse">>
+MkdRoutes == <<"wire", "typed", "builder">>
+WrRoutes == <<"zone", "all", "ref", "parsed", "own">>
+KindIx == CASE kind = "simple" -> 0 [] kind = "tabbed" -> 1 [] kind = "multiline" -> 2 [] OTHER -> 3
+OrgIx == IF org = <<>> THEN 0 ELSE 1
+Route == <<MkRoutes[1 + ((row + var + (2 * KindIx) + OrgIx) % 6)], MkdRoutes[1 + ((KindIx + OrgIx) % 3)],
+           WrRoutes[1 + ((var + KindIx + (2 * OrgIx)) % 5)]>>
+
 Emit ==
   LET n == Rows[row].name
-      inp == [type_case |-> <<Rows[row].i, var>>, tname |-> n, owner |-> Owner, kind |-> kind, origin |-> org]
+      inp == [type_case |-> <<Rows[row].i, var>>, tname |-> n, owner |-> Owner, kind |-> kind, origin |-> org,
+              route |-> Route]
       ds == CellDevs(n, var, kind)
-  IN IF ds = {} THEN PrintT("CASE " \o ToJson([in |-> inp, exp |-> [lib |-> "eq"]]))
-     ELSE PrintT("CASE " \o ToJson([in |-> inp, exp |-> [lib |-> "eq"], dev |-> [d \in ds |-> [lib |-> "neq"]]]))
+      \* the token route (the library's record-data tokens read by ZoneRecordData::scan
+      \* over an IterScanner): the same law; Scanner::scan_svcb_octets is documented as
+      \* "only implemented by some Scanners", the token route does not offer SvcParams
+      tok == IF n \in Svc /\ var >= 3 THEN "unsupported" ELSE "eq"
+      generic == n = "TYPE65280"
+      expd == [lib |-> "eq", tok |-> tok]
+  IN IF generic THEN PrintT("CASE " \o ToJson([in |-> inp, exp |-> expd,
+                        dev |-> [d \in {"D_iterscanner_marker"} |-> [lib |-> "eq", tok |-> "err"]]]))
+     ELSE IF ds = {} THEN PrintT("CASE " \o ToJson([in |-> inp, exp |-> expd]))
+     ELSE PrintT("CASE " \o ToJson([in |-> inp, exp |-> expd, dev |-> [d \in ds |-> [lib |-> "neq", tok |-> tok]]]))
 =============================================================================
